@@ -101,6 +101,41 @@ for it in range(N):
                     {"kind": kind, "n": n, "noise": noise, "draw": it}, lambda kind=kind, n=n, noise=noise: contract(kind, n, noise))
 
 
+def constructed_transformation(rot_dtype, trans_dtype, stacked):
+    """AffineTransformation objects built by hand (as in the class documentation: a 90 degree rotation written with
+    0 / +-1 literals, fractional translations): apply() equals the textbook formula and the 4x4 matrix form"""
+    rot = np.array([[0, -1, 0], [1, 0, 0], [0, 0, 1]], dtype=rot_dtype)
+    c = np.array([1.25, -0.5, 2.75], dtype=trans_dtype)
+    t = np.array([2.0, 0.75, 0.6], dtype=trans_dtype)
+    if stacked:
+        rot = np.stack([rot, np.eye(3, dtype=rot_dtype)])
+        c, t = np.stack([c, c * 2]), np.stack([t, -t])
+    tr = struc.AffineTransformation(c, rot, t)
+    pts = rng.uniform(-5, 5, size=(4, 3)).astype(np.float32)
+    got = np.asarray(tr.apply(np.stack([pts, pts]) if stacked else pts), dtype=float)
+    rots = np.asarray(rot, dtype=float).reshape(-1, 3, 3)
+    cs, ts = np.asarray(c, dtype=float).reshape(-1, 3), np.asarray(t, dtype=float).reshape(-1, 3)
+    for m in range(len(rots)):
+        exp = (pts.astype(float) + cs[m]) @ rots[m].T + ts[m]
+        g = got if not stacked else got[m]
+        if not np.allclose(g, exp, atol=1e-4):
+            return f"apply() of model {m}: {g[0].round(4).tolist()}, rotation(x + center_translation) + target_translation = {exp[0].round(4).tolist()}"
+        M = np.asarray(tr.as_matrix(), dtype=float).reshape(-1, 4, 4)[m]
+        hom = np.hstack([pts.astype(float), np.ones((len(pts), 1))]) @ M.T
+        if not np.allclose(hom[:, :3], exp, atol=1e-4) or not np.allclose(hom[:, 3], 1) or not np.allclose(M[3], [0, 0, 0, 1]):
+            return (f"as_matrix() of model {m} maps {pts[0].round(3).tolist()} to {hom[0, :3].round(4).tolist()}, apply() gives {exp[0].round(4).tolist()} "
+                    f"(translation column {M[:3, 3].round(4).tolist()})")
+    return None
+
+
+for rot_dtype in (int, np.int8, np.float32, np.float64):
+    for trans_dtype in (np.float32, np.float64):
+        for stacked in (False, True):
+            R.check("superimpose: proper rotation, optimal RMSD, apply == matrix", "hand-made transformation: apply == 4x4 matrix",
+                    {"rotation dtype": str(np.dtype(rot_dtype)), "translation dtype": str(np.dtype(trans_dtype)), "stacked": stacked},
+                    lambda rot_dtype=rot_dtype, trans_dtype=trans_dtype, stacked=stacked: constructed_transformation(rot_dtype, trans_dtype, stacked))
+
+
 def stack_contract():
     fixed = points("generic", 5)
     models = np.stack([(fixed - fixed.mean(0)) @ rot(rng).T + rng.uniform(-5, 5, size=3) for _ in range(2)])
